@@ -87,10 +87,14 @@ def _solve(i):
             r = s3.check()
         if r == z3.sat and kind != 'cover':
             # confirm the abstract counter-model under the concrete meaning of pow2 / & | ^ / bit_length
+            ct = T.concrete_theory(fs)
+            if not ct:
+                # no abstract symbol occurs in the query: the counter-model is already over plain integers / arrays
+                return (i, str(r), time.time() - t0, model)
             sc = z3.Solver()
             sc.set('timeout', max(timeout, 20000))
             sc.add(*fs)
-            sc.add(*T.concrete_theory(fs))
+            sc.add(*ct)
             rc = sc.check()
             if rc == z3.sat:
                 m = sc.model()
